@@ -273,6 +273,45 @@ def r26_sign_prop(ctx):
                 isinstance(a, ast.BinOp) and isinstance(a.op, ast.Mult) and (
                     sign_by_prefix(f.node, a.left) or
                     sign_by_prefix(f.node, a.right)) for a in leaves)
+    # a match becomes a Duration: inside the loop over the regexes, once a
+    # regex matched, the only group that may be left out is one that did not
+    # take part in the match (None), and nothing but a failed match skips the
+    # construction
+    from ..flow import path_conds
+    skipped = []
+    for n in walk_no_nested(f.node):
+        if isinstance(n, ast.For) and "DURATION_REGEXES" in U(n.iter):
+            matchvar = None
+            for st in n.body:
+                if isinstance(st, ast.Assign) and isinstance(
+                        st.value, ast.Call) and U(st.value.func).endswith(
+                            (".search", ".match")):
+                    matchvar = U(st.targets[0])
+            for x in ast.walk(n):
+                if not isinstance(x, ast.Continue):
+                    continue
+                ok_ = False
+                for t, pol in path_conds(x, stop=n):
+                    tt = U(t)
+                    if (pol and tt == "not %s" % matchvar) or (
+                            not pol and tt == matchvar):
+                        ok_ = True      # no match: try the next regex
+                    if pol and re.fullmatch(r"\w+ is None", tt):
+                        ok_ = True      # group absent from the match
+                    if not pol and re.fullmatch(r"\w+ is not None", tt):
+                        ok_ = True
+                if not ok_:
+                    conds = " and ".join(("" if pol else "not ") + U(t)
+                                         for t, pol in path_conds(x, stop=n))
+                    skipped.append(conds[:80])
+    rep.check(not skipped, rule, ctx.fkey(f, None, "match-becomes-duration"),
+              f.loc(),
+              "after a regex matched, only groups absent from the match are "
+              "left out and the Duration is always constructed",
+              "DurationParser.parse skips a captured component or a whole "
+              "match under %s: a component that was written (a zero, say) "
+              "is dropped, or a matching text is refused" % skipped,
+              ("C10",))
     rep.check(oke, rule, ctx.fkey(f, None, "all-units"), f.loc(),
               "every captured unit is multiplied by the sign factor inside "
               "the loop over all groups",
